@@ -275,8 +275,10 @@ claim(
     "resize section (C37_conc_inv, C37_conc_index_in_buffer, C37_conc_local), and over whole histories the claimed ranges "
     "tile [0, size) so each index is claimed exactly once (C37_ranges_tile, C37_ranges_cover_once, "
     "C37_grow_returns_claim). Sequential tie: differential vs the value model under ASan; concurrent tie: traces under "
-    "the deterministic scheduler replayed through the protocol model.",
-    "Trusted: Lean kernel; dsched; SC reading; the mutex is modelled as an atomic test-and-set word whose acquisition has no "
+    "the deterministic scheduler replayed through the protocol model; native tie: the real ThreadSanitizer on lock-free "
+    "readers (operator[], getBuffer) running against growers that cross table-capacity boundaries, which reports any read "
+    "of a retired buffer-pointer table that is not ordered before its release.",
+    "Trusted: Lean kernel; dsched; ThreadSanitizer's happens-before detector; SC reading; the mutex is modelled as an atomic test-and-set word whose acquisition has no "
     "trace event; element construction is not visible in traces (checked by the harness oracle: all elements default).",
     "Lean 4 proof (value semantics + interleaving invariant + history tiling) + differential and trace correspondence",
     "DESIGN.md §5.5 C37",
